@@ -285,8 +285,8 @@ func (t *tr) expr(e ast.Expr) string {
 		if _, ok := t.c.ints[v.Name]; ok {
 			return "Consts." + v.Name
 		}
-		if _, ok := t.c.strs[v.Name]; ok {
-			return "Consts." + v.Name + "_bytes"
+		if sv, ok := t.c.strs[v.Name]; ok {
+			return "(" + leanBytes(sv) + " : List UInt8)" // the constant's value (whatever its name)
 		}
 		return v.Name
 	case *ast.UnaryExpr:
@@ -373,11 +373,11 @@ func (t *tr) stmts(list []ast.Stmt, ind string) string {
 			return "let " + src(v.Lhs[0]) + " := " + t.expr(v.Rhs[0]) + "\n" + ind + t.stmts(rest, ind)
 		}
 	case *ast.ReturnStmt:
-		if len(v.Results) == 1 {
-			return t.expr(v.Results[0])
-		}
 		if a, ok := t.atoms["return "+src0(v.Results)]; ok {
 			return a
+		}
+		if len(v.Results) == 1 {
+			return t.expr(v.Results[0])
 		}
 		var parts []string
 		for _, r := range v.Results {
@@ -965,55 +965,6 @@ func main() {
 		})
 		fmt.Fprintf(&cs, "/-- header names matched (after ToLower) by `hdr.Recv` -/\ndef hdrRecvFields : List String := [%s]\n", strings.Join(cases, ", "))
 	})
-	// reserved prefix in assignLocked
-	guard(&cs, []string{"reservedPrefix", "builtinNames"}, func() {
-		fd, _ := findFunc(root, "Server", "assignLocked")
-		if fd == nil {
-			fail("Server.assignLocked not found")
-		}
-		prefix, found := "", false
-		var firstIf *ast.IfStmt
-		for _, s := range fd.Body.List {
-			if is, ok := s.(*ast.IfStmt); ok {
-				firstIf = is
-				break
-			}
-		}
-		if firstIf == nil {
-			fail("assignLocked: gate not found")
-		}
-		want := ""
-		ast.Inspect(firstIf.Cond, func(n ast.Node) bool {
-			if call, ok := n.(*ast.CallExpr); ok && src(call.Fun) == "strings.HasPrefix" && len(call.Args) == 2 {
-				if s, err := strconv.Unquote(src(call.Args[1])); err == nil {
-					prefix, found = s, true
-					want = "s.builtin && strings.HasPrefix(" + src(call.Args[0]) + ", " + src(call.Args[1]) + ")"
-				}
-			}
-			return true
-		})
-		if !found || src(firstIf.Cond) != want {
-			fail("assignLocked: the reserved-name gate is no longer `s.builtin && strings.HasPrefix(name, <literal>)` (got %q)", src(firstIf.Cond))
-		}
-		fmt.Fprintf(&cs, "\n/-- reserved method-name prefix tested in `assignLocked` -/\ndef reservedPrefix : List UInt8 := %s\n", leanBytes(prefix))
-		// the switch arms inside the gate
-		var arms []string
-		ast.Inspect(firstIf.Body, func(n ast.Node) bool {
-			if cc, ok := n.(*ast.CaseClause); ok {
-				for _, e := range cc.List {
-					if v, ok := c.strs[src(e)]; ok {
-						arms = append(arms, leanBytes(v))
-					} else if s, err := strconv.Unquote(src(e)); err == nil {
-						arms = append(arms, leanBytes(s))
-					} else {
-						fail("assignLocked: unsupported case %s", src(e))
-					}
-				}
-			}
-			return true
-		})
-		fmt.Fprintf(&cs, "/-- names answered by a built-in inside the gate -/\ndef builtinNames : List (List UInt8) := [%s]\n", strings.Join(arms, ", "))
-	})
 	cs.WriteString("\nend Jrpc.Gen.Consts\n")
 	write(*out, "Consts.lean", cs.String())
 
@@ -1035,6 +986,49 @@ func main() {
 		funcs[name] = lean
 	}
 	emit(root, c, "", "isNull", "isNull", "(msg : List UInt8) : Bool", nil)
+	// the reserved-name gate of Server.assignLocked, translated as a whole (helpers it returns through
+	// are inlined): who answers a name - the user's assigner, the rpc.serverInfo built-in, nobody
+	guard(&fs, []string{"assignGate"}, func() {
+		fd, file := findFunc(root, "Server", "assignLocked")
+		if fd == nil {
+			fail("Server.assignLocked not found")
+		}
+		var gate func(fd *ast.FuncDecl, depth int) string
+		gate = func(fd *ast.FuncDecl, depth int) string {
+			atoms := map[string]string{"s.builtin": "builtin"}
+			ast.Inspect(fd.Body, func(n ast.Node) bool {
+				if _, isLit := n.(*ast.FuncLit); isLit {
+					return false
+				}
+				r, ok := n.(*ast.ReturnStmt)
+				if !ok || len(r.Results) != 1 {
+					return true
+				}
+				key, val := "return "+src0(r.Results), src(r.Results[0])
+				switch {
+				case val == "nil":
+					atoms[key] = "GateOut.nobody"
+				case strings.HasPrefix(val, "s.mux.Assign("):
+					atoms[key] = "GateOut.assigner"
+				default:
+					if call, isCall := r.Results[0].(*ast.CallExpr); isCall {
+						if sel, isSel := call.Fun.(*ast.SelectorExpr); isSel && src(sel.X) == "s" && !ast.IsExported(sel.Sel.Name) && depth < 2 {
+							if hd, _ := findFunc(root, "Server", sel.Sel.Name); hd != nil && hd.Body != nil {
+								atoms[key] = "(" + gate(hd, depth+1) + ")"
+								return true
+							}
+						}
+						fail("%s:assignLocked: unsupported return %q", file, val)
+					}
+					atoms[key] = "GateOut.serverInfo" // a handler value: function literal or method value
+				}
+				return true
+			})
+			t := &tr{atoms: atoms, c: c, funcs: map[string]string{"strings.HasPrefix": "hasPrefix"}, who: file + ":" + fd.Name.Name}
+			return t.stmts(fd.Body.List, "  ")
+		}
+		fmt.Fprintf(&fs, "/-- %s: `Server.assignLocked` (with the helpers it returns through): `hasPrefix s p` is `strings.HasPrefix(s, p)` -/\ndef assignGate (builtin : Bool) (name : List UInt8) (hasPrefix : List UInt8 → List UInt8 → Bool) : GateOut :=\n  %s\n\n", file, gate(fd, 0))
+	})
 	funcs["bytes.TrimSpace"] = "trimSpace"
 	emit(root, c, "", "firstByte", "firstByte", "(data : List UInt8) (trimSpace : List UInt8 → List UInt8) : Int", nil)
 	delete(funcs, "firstByte") // callers pass the byte as an atom
